@@ -1799,7 +1799,9 @@ class SpaceUpdater(SharedSpaceOperations):
         self._instructions.append(
             Instruction(self._update_derived_space, (node,))
         )
-        for _, v in nx.edge_bfs(self.manager._graph, node):
+        # Update each sub space after all of its bases
+        descs = nx.descendants(self.manager._graph, node)
+        for v in nx.topological_sort(self.manager._graph.subgraph(descs)):
             self._instructions.append(
                 Instruction(self._update_derived_space, (v,))
             )
